@@ -44,8 +44,13 @@ class ExtUserData:
 
         try:
             j = json.loads(value)
-        except json.decoder.JSONDecodeError:
-            # This should have been valid JSON but if it isn't
+            # A value nested too deeply to be printed again with the
+            # rest of the PEL is treated like invalid JSON.
+            json.dumps(j, indent=4)
+        except (ValueError, RecursionError):
+            # This should have been valid JSON but if it isn't (or if
+            # it is beyond what the json module handles: integer
+            # literals over the digit limit, too deep nesting)
             # then hexdump it.
             mv = memoryview(value.encode('utf-8'))
             j = json.loads(json.dumps(hexdump(mv)))
